@@ -28,10 +28,10 @@ func (r *Rng) Intn(n int) int {
 	}
 	return int(r.Next() % uint64(n))
 }
-func (r *Rng) Bool() bool          { return r.Next()&1 == 1 }
-func (r *Rng) Chance(p int) bool   { return r.Intn(100) < p }
+func (r *Rng) Bool() bool              { return r.Next()&1 == 1 }
+func (r *Rng) Chance(p int) bool       { return r.Intn(100) < p }
 func (r *Rng) Pick(xs []string) string { return xs[r.Intn(len(xs))] }
-func (r *Rng) Fork() *Rng          { return &Rng{s: r.Next()} }
+func (r *Rng) Fork() *Rng              { return &Rng{s: r.Next()} }
 
 // ---------- Coq term printing ----------
 
